@@ -334,6 +334,22 @@ func RunFixed[C any](t *testing.T, id string, cases []C, decide func(C) Verdict)
 	}
 }
 
+// Abort records a violation that cannot be reported through the normal path because the code under test is still
+// running (a call that does not return cannot be cancelled, and shrinking would start it again and again):
+// the case is saved as it is, the VIOLATION line is printed and the process ends with status 1.
+func Abort(id, test string, c any, v Verdict) {
+	p := writeReplay(id, test, c, v)
+	fmt.Printf("VIOLATION property=%s replay=%s\n", id, p)
+	fmt.Printf("  signature: %s\n  detail: %s\n", v.Signature, firstLines(v.Detail, 40))
+	os.Exit(1)
+}
+
+// Inconclusive ends the process with the status the driver maps to "inconclusive".
+func Inconclusive(id, format string, args ...any) {
+	fmt.Printf("INCONCLUSIVE %s: %s\n", id, fmt.Sprintf(format, args...))
+	os.Exit(3)
+}
+
 // watchdog saves the case and ends the process as INCONCLUSIVE when one case does not return within
 // VERIF_CASE_WATCHDOG seconds (default 600): a time budget hit is never a violation, but the culprit input is kept.
 func watchdog(id, test string, c any) (stop func()) {
